@@ -142,6 +142,11 @@ def run(res, tier, rng):
 
     # ---------------- B. the bundled list ----------------
     rules = list(D.PUBLIC_SUFFIXES) + list(D.PRIVATE_SUFFIXES)
+    # the transcription only needs the rules sharing the host's last label (a rule's last label is never '!x'; a bare
+    # '*' rule would be kept under its own key)
+    rules_by_last = {}
+    for r_ in rules:
+        rules_by_last.setdefault(r_.rsplit(".", 1)[-1], []).append(r_)
     cand = []
     frac = 0.04 if tier == "quick" else 1.0
     for r in rules:
@@ -215,7 +220,7 @@ def run(res, tier, rng):
             sp_ = call(T.split_suffix, u)
             io = [[list(sp_) if isinstance(sp_, tuple) else sp_, call(T.SUFFIX_TRIE.extract_suffix, u), call(T.get_domain_name, u),
                    call(T.has_valid_suffix, u)], call(T.has_valid_tld, u), call(T.is_valid_tld, u)]
-            sl = psl_len(rules, labs)
+            sl = psl_len(rules_by_last.get(labs[-1], []) + rules_by_last.get("*", []), labs)
             exp = expected_from_len(labs, sl)
             nontriv.add(u)
             if sp is not common.NOMODEL and sp[k] != sl:
